@@ -15,10 +15,20 @@ fn install_hooks() {
     grafeo_common::verif_hooks::set_yield_hook(Some(Box::new(|_tag| shuttle::thread::yield_now())));
 }
 
+/// `--shard k/n`: this process runs the scenarios whose position in the (deterministic) global work list is k mod n.
+static SHARD: std::sync::OnceLock<(usize, usize)> = std::sync::OnceLock::new();
+static WORK_INDEX: std::sync::atomic::AtomicUsize = std::sync::atomic::AtomicUsize::new(0);
+
 fn run_all<O: Send + Sync + 'static>(scs: Vec<Scenario<O>>, bound: usize, cap: u64, rep: &mut Report, only: Option<&str>) {
     for sc in scs {
         if only.is_some_and(|o| o != sc.name) {
             continue;
+        }
+        let idx = WORK_INDEX.fetch_add(1, std::sync::atomic::Ordering::Relaxed);
+        if let Some((k, n)) = SHARD.get() {
+            if idx % n != *k {
+                continue;
+            }
         }
         let name = sc.name;
         let t0 = rep.elapsed_s();
@@ -60,6 +70,7 @@ fn main() {
             };
         }
         try_family!(scen::lpg_scenarios(three));
+        try_family!(scen::lpg_matrix_scenarios());
         try_family!(scen::rdf_scenarios(three));
         try_family!(scen::txm_scenarios(three));
         try_family!(scen::bm_scenarios(three));
@@ -77,16 +88,52 @@ fn main() {
     }
     let only = args.rest.iter().position(|a| a == "--only").and_then(|i| args.rest.get(i + 1)).cloned();
     let only = only.as_deref();
+    let shard = args.rest.iter().position(|a| a == "--shard").and_then(|i| args.rest.get(i + 1)).cloned();
+    if let Some(s) = &shard {
+        let (k, n) = s.split_once('/').and_then(|(a, b)| Some((a.parse::<usize>().ok()?, b.parse::<usize>().ok()?))).unwrap_or_else(|| vcore::machinery_failure("bad --shard k/n"));
+        let _ = SHARD.set((k, n));
+    }
     let mut rep = Report::new(&prop, tier, "model_checking");
     rep.max_samples = 12;
+    let shard_path = |k: usize| vcore::verif_root().join(format!("target/partials/{prop}.shard-{k}.json"));
+    // Parent: one execution of the controlled scheduler is single-threaded, and the deterministic hash-seed source is
+    // process-global, so the work list is split over child processes (one slice each) and the partial reports are merged.
+    let sharded_parent = shard.is_none() && only.is_none();
+    if sharded_parent {
+        let n = vcore::cores().clamp(1, 16);
+        let exe = std::env::current_exe().unwrap_or_else(|e| vcore::machinery_failure(&format!("current_exe: {e}")));
+        let mut kids = vec![];
+        for k in 0..n {
+            let _ = std::fs::remove_file(shard_path(k));
+            let mut c = std::process::Command::new(&exe);
+            c.arg(&prop).arg("--tier").arg(if tier == Tier::Quick { "quick" } else { "thorough" }).arg("--shard").arg(format!("{k}/{n}"));
+            kids.push((k, c.spawn().unwrap_or_else(|e| vcore::machinery_failure(&format!("spawn shard {k}: {e}")))));
+        }
+        for (k, mut kid) in kids {
+            let st = kid.wait().unwrap_or_else(|e| vcore::machinery_failure(&format!("wait shard {k}: {e}")));
+            if !st.success() {
+                vcore::machinery_failure(&format!("shard {k} of the scenario list exited with {st} (an engine crash, not a verdict)"));
+            }
+        }
+        for k in 0..n {
+            rep.merge_shard(&shard_path(k));
+        }
+        if let Some(mut a) = rep.extra.get("scenarios").and_then(|x| x.as_array()).cloned() {
+            a.sort_by_key(|x| (x["scenario"].as_str().unwrap_or("").to_string(), x["threads"].as_array().map_or(0, |t| t.len())));
+            rep.set("scenarios", serde_json::Value::Array(a));
+        }
+        rep.set("worker_processes", json!(n));
+    }
     let (bound, three, cap) = match tier {
         Tier::Quick => (3usize, true, 400_000u64),
         Tier::Thorough => (5usize, true, 8_000_000u64),
     };
     rep.rule = "engine SCHED: every interleaving (at lock-acquisition / yield-hook granularity) of each listed 2-3 thread scenario with at most `preemption_bound` preemptions is executed on the real code under a controlled scheduler; an evaluation is one complete schedule; distinct non-trivial = distinct (scenario, recorded outcome) pairs".into();
     match prop.as_str() {
+        _ if sharded_parent => {}
         "C20" => {
             run_all(scen::lpg_scenarios(false), bound, cap, &mut rep, only);
+            run_all(scen::lpg_matrix_scenarios(), bound, cap, &mut rep, only);
             run_all(scen::rdf_scenarios(false), bound, cap, &mut rep, only);
             run_all(scen::txm_scenarios(false), bound, cap, &mut rep, only);
             run_all(scen::bm_scenarios(false), bound, cap, &mut rep, only);
@@ -114,6 +161,10 @@ fn main() {
         }
     }
     rep.traces_validated = rep.evaluations;
+    if let Some((k, _)) = SHARD.get() {
+        rep.write_partial(&shard_path(*k));
+        std::process::exit(0);
+    }
     rep.set("preemption_bound", json!(bound));
     rep.assumptions.push("std atomics execute sequentially consistently under the controlled scheduler: weak-memory reorderings of Relaxed operations are outside this engine".into());
     rep.assumptions.push("DashMap shard locks are not intercepted (audited: never held across a parking_lot acquisition); rayon/crossbeam code is not part of these scenarios".into());
